@@ -87,6 +87,9 @@ pub struct RunCfg {
     pub rng_seed: u64,
     #[serde(default)]
     pub clock_bump_us: u64,
+    /// the session's input type is an enum whose serialised size depends on the value (4/5/8 bytes)
+    #[serde(default)]
+    pub variable_size_input: bool,
 }
 
 #[derive(Serialize, Deserialize, Clone, Copy, Debug, PartialEq, Eq)]
